@@ -226,6 +226,17 @@ pub(crate) fn run(seed: u64, n: u64, out: &mut Out) {
                     for x in hashes.iter_mut() { *x = h.clone(); }
                 }
                 10 => { what = "long-batch"; let b = serve_block_filters(&bc, start, 3 * interval); filters = b.filters().into_iter().collect(); hashes = b.block_hashes().into_iter().collect(); }
+                13 | 14 => {
+                    // more filters than the client has hashes for, the surplus being bytes no GCS reader can decode: only the verified
+                    // prefix may ever be looked at
+                    what = "long-batch-with-undecodable-tail";
+                    let b = serve_block_filters(&bc, start, 3 * interval); filters = b.filters().into_iter().collect(); hashes = b.block_hashes().into_iter().collect();
+                    for k in 0..rng.range(1, 3) {
+                        let junk: Vec<u8> = match rng.below(3) { 0 => vec![1, 0, 0, 0, 0, 0, 0, 0], 1 => vec![0xff; 5], _ => vec![9, 0, 0, 0, 0, 0, 0, 0, 1, 2] };
+                        filters.push(ckb_types::bytes::Bytes::from(junk).pack());
+                        hashes.push(bc.chain.headers[((start + k) as usize).min(tip as usize)].hash());
+                    }
+                }
                 _ => {}
             }
             // ---- the model's view of the world before the message ----
